@@ -45,6 +45,14 @@ class Rec:
         return f'Rec({self.f})'
 
 
+class LambdaVal:
+    """A lambda expression closed over the environment it was created in."""
+
+    def __init__(self, node, env):
+        self.node = node
+        self.env = env
+
+
 class PyModel:
     """Base class for rule-provided models whose methods the interpreter may call."""
 
@@ -438,7 +446,7 @@ class Interp:
             self._comp(n.generators, 0, lambda: outd.__setitem__(self.ev(n.key), self.ev(n.value)))
             return outd
         if isinstance(n, ast.Lambda):
-            return Opaque('lambda')
+            return LambdaVal(n, dict(self.env))
         if isinstance(n, ast.Yield) and hasattr(self, '_yielded'):
             self._yielded.append(self.ev(n.value) if n.value is not None else None)
             return None
@@ -485,9 +493,14 @@ class Interp:
             recv = self._safe_ev(fn.value)
             if isinstance(recv, PyModel) and hasattr(recv, fn.attr):
                 return getattr(recv, fn.attr)(*args, **kwargs)
+            if isinstance(recv, Opaque) and recv.label not in ('aug',):
+                return Opaque(f'{recv.label}.{fn.attr}()')
             if isinstance(recv, Rec) and 'cls' in recv.f and isinstance(recv.f['cls'], str) and self.depth < 4 \
                     and not (isinstance(fn.value, ast.Name) and fn.value.id in self.effects):
                 cm_, meth_ = self.a.res.class_attr(recv.f['cls'], fn.attr)
+                key_ = f"{recv.f['cls']}.{fn.attr}"
+                if key_ in self.call_models:
+                    return self.call_models[key_](recv, *args, **kwargs)
                 if isinstance(meth_, ast.FunctionDef):
                     sub_sc, self.self_class = self.self_class, recv.f['cls']
                     try:
@@ -535,6 +548,15 @@ class Interp:
         for key in (ref, text):
             if key in self.call_models:
                 return self.call_models[key](*args, **kwargs)
+        if ref and ref.startswith('builtin:') and ref[8:] in _PURE and _PURE[ref[8:]] is not None \
+                and not (isinstance(fn, ast.Name) and fn.id == ref[8:]):
+            if not any(isinstance(a_, (Opaque, Ref, Rec)) for a_ in args):
+                try:
+                    return _PURE[ref[8:]](*args)
+                except (ValueError, TypeError) as exc:
+                    raise ExcRaised(Ref(f'builtin:{type(exc).__name__}'))
+        if ref and ref.startswith(('ext:logging.', 'ext:warnings.warn')) or ref == 'builtin:print':
+            return None      # diagnostics only
         if ref and ref.startswith('pkg:'):
             om_, onode_ = self.a.res.lookup(ref)
             if isinstance(onode_, ast.ClassDef):
@@ -575,6 +597,15 @@ class Interp:
                     if fn.value.id in self.env:
                         return self._inline(cm, meth, [self.env[fn.value.id]] + args, kwargs)
                     return self._inline(cm, meth, args, kwargs, skip_first=True)
+        if isinstance(fn, ast.Name) and fn.id in ('filter', 'map') and fn.id not in self.env and len(args) == 2:
+            seq = args[1]
+            if isinstance(seq, (Opaque, Ref, Rec)):
+                raise Unmodelled(f'{fn.id}() over a symbolic sequence')
+            if fn.id == 'filter':
+                return [x for x in seq if self.truth(self.invoke(args[0], [x]))]
+            return [self.invoke(args[0], [x]) for x in seq]
+        if isinstance(fn, ast.Name) and fn.id in self.env and isinstance(self.env[fn.id], LambdaVal):
+            return self.invoke(self.env[fn.id], args)
         if isinstance(fn, ast.Name) and fn.id in _PURE and fn.id not in self.env:
             if fn.id == 'isinstance':
                 if self.isinstance_fn is None:
@@ -625,6 +656,34 @@ class Interp:
             self.out.events.append(('<eager-generator>', ()))
             return list(sub._yielded)
         return out.value if out.end == 'return' else None
+
+    def invoke(self, callee, args):
+        """Apply a first-class callable value (lambda, model object, reference to a function) to arguments."""
+        if isinstance(callee, LambdaVal):
+            params = [a.arg for a in callee.node.args.args]
+            sub = Interp(self.a, self.m, dict(callee.env), effect_receivers=self.effects, isinstance_fn=self.isinstance_fn,
+                         call_models=self.call_models, inline_pkg=self.inline_pkg, depth=self.depth + 1,
+                         self_class=self.self_class, record_unknown=self.record_unknown, scope_fn=self.scope_fn)
+            sub.env.update(dict(zip(params, args)))
+            return sub.ev(callee.node.body)
+        if isinstance(callee, PyModel) and callable(callee):
+            return callee(*args)
+        if isinstance(callee, Ref):
+            if callee.ref in self.call_models:
+                return self.call_models[callee.ref](*args)
+            if callee.ref in ('builtin:bool', 'builtin:int', 'builtin:float', 'builtin:str', 'builtin:len', 'builtin:abs'):
+                fn_ = {'bool': bool, 'int': int, 'float': float, 'str': str, 'len': len, 'abs': abs}[callee.ref.split(':')[1]]
+                if fn_ is bool and args and isinstance(args[0], Rec):
+                    return self.truth(args[0])
+                return fn_(*args)
+            om, onode = self.a.res.lookup(callee.ref)
+            if isinstance(onode, ast.FunctionDef) and self.depth < 4:
+                if any(isinstance(d, ast.Name) and d.id == 'classmethod' for d in onode.decorator_list):
+                    raise Unmodelled(f'call of classmethod {callee.ref} needs a model')
+                return self._inline(om, onode, list(args), {})
+        if callee is None:
+            return self.truth(args[0]) if args else None
+        raise Unmodelled(f'call of first-class value {callee!r}')
 
     def _comp(self, gens, i, emit):
         if i == len(gens):
